@@ -357,9 +357,8 @@ def finding_key(job, reason, runner=None):
             if l.startswith("error") and not (name and name in l):
                 pick = l
                 break
-        cls = msg_class(pick, 80)
-        if "_" in cls:
-            cls = cls[:cls.index("_") + 1]
+        q = re.search(r"['\"`]", pick)
+        cls = msg_class(pick[:q.start()], 80) + " _" if q else msg_class(pick, 80)
         return "%s:%s:%s" % (reason, tv, cls)
     if reason == "FailureWithoutDiagnostic":
         # the last thing said before failing
